@@ -187,6 +187,12 @@ class ComplementaryTableInfo:
             elif not is_empty:
                 columns[name] = ColumnMetadata.from_dtype(dtype)
 
+        # keep the register in dataframe column order (units are reported positionally)
+        if list(columns.keys()) != [name for name in df_columns if name in columns]:
+            ordered = {name: columns[name] for name in df_columns if name in columns}
+            columns.clear()
+            columns.update(ordered)
+
     def _check_dataframe(self, df: pd.DataFrame):
         """
         Check that column register matches columns of dataframe
